@@ -127,6 +127,12 @@ func c16(c *core.Ctx) {
 	c.Rule("C16.fraction", "the renewal delay is the revised lifetime scaled by a constant in [0.5, 1) and the expiry delay by a constant >= 1.25", 2)
 	c.Rule("C16.lifetime", "the renewal timer is armed with the scheduled instance's own revisedLifetime × K, and revisedLifetime is only written by handleOpenSecureChannelResponse from the response's SecurityToken.RevisedLifetime (capped by Config.Lifetime)", 4)
 	lifetimeF := field(c, "uasc", "channelInstance", "revisedLifetime")
+	c.Rule("C16.expiry", "when a token expires the client drops that token instance only (identity comparison in scheduleExpiration's retain filter): a filter by securityTokenID also drops the renewed instance when the server re-uses the token id for the new token — the server of this repository does — and leaves the client unable to verify any response until the next renewal", 1)
+	if tokField := field(c, "uasc", "channelInstance", "securityTokenID"); tokField != nil {
+		for _, r := range retainFilters(c, schedExp, instances, tokField) {
+			c.Ob("C16.expiry", fname(schedExp)+"·retain-filter keeps the renewed instance", pos(c, r.at), r.identity, r.detail)
+		}
+	}
 	c.Rule("C16.trunc", "no time.Duration(x) conversion of a non-constant float number of seconds/milliseconds that is afterwards multiplied by a time unit: the fraction is lost before scaling (a 2.5 s token would be renewed after 1 s, a 1.2 s token immediately)", 1)
 	c.Rule("C16.once", "scheduleRenewal is started only from handleOpenSecureChannelResponse, as a goroutine, for the installed instance, on the `kind == client` edge, exactly once on every path from the installation of a client token to return", 1)
 	c.Rule("C16.gate", "renew() holds the request gate for the whole exchange: reqLocker.lock() dominates pendingReq.Wait() which dominates the call of open(), and reqLocker.unlock() is deferred before them", 1)
